@@ -216,14 +216,28 @@ class Tracer:
             w.__wrapped__ = f
             setattr(bm, name, w)
 
+        def liq_extra(a):
+            import jesse.services.selectors as selectors
+            from jesse.store import store
+            p = selectors.get_position(a[1], a[2])
+            d = {'liq_total': store.app.total_liquidations}
+            if p is not None:
+                try:
+                    d.update(mode=p.mode, liq_price=float(p.liquidation_price), bankr=float(p.bankruptcy_price),
+                             wallet=float(p.exchange.wallet_balance),
+                             active=len([o for o in store.orders.get_active_orders(a[1], a[2]) if o.is_active]))
+                except Exception as ex:
+                    d['extra_error'] = repr(ex)
+            return d
+
         def liq_enter(a, kw):
             tr.in_liq += 1
             tr.emit('liq_enter', c=[float(x) for x in a[0]], exchange=a[1], symbol=a[2],
-                    pos=tr.pos_snapshot(a[1], a[2]))
+                    pos=tr.pos_snapshot(a[1], a[2]), **liq_extra(a))
 
         def liq_leave(a, kw):
             tr.in_liq -= 1
-            tr.emit('liq_exit', exchange=a[1], symbol=a[2], pos=tr.pos_snapshot(a[1], a[2]))
+            tr.emit('liq_exit', exchange=a[1], symbol=a[2], pos=tr.pos_snapshot(a[1], a[2]), **liq_extra(a))
 
         wrap_mod('_check_for_liquidations', liq_enter, liq_leave)
 
